@@ -37,7 +37,9 @@ def cases_rel(tier, seed):
     for mn in REL32 + REL8ONLY:
         for kw in (None, "short", "long"):
             for d in dvalues(tier, seed):
-                for sp in ("dec", "hex"):
+                for sp in ("dec", "hex", "pad16"):
+                    if sp == "pad16" and abs(d) > 200 and abs(d) not in (1 << 15, 1 << 31, (1 << 31) - 1):
+                        continue
                     flags = []
                     dc = dclass(d)
                     has32 = mn in REL32
@@ -71,7 +73,9 @@ def cases_rel(tier, seed):
                             flags.append("must_reject")
                     a = {"form": "rel", "width": "", "class": "rel", "kw": kw or "none", "dclass": dc, "spelling": sp,
                          "sign": "neg" if d < 0 else "pos", "hand": True}
-                    c = e1.mk(mn, (("rel", d, sp, kw),), a, flags=tuple(flags))
+                    c = e1.mk(mn, (("rel", d, "hex" if sp == "pad16" else sp, kw),), a, flags=tuple(flags))
+                    if sp == "pad16":        # 0x + 16 digits: the spelling that switches SMART mov-immediate handling
+                        c.text = "%s %s%s0x%016x" % (mn, (kw + " ") if kw else "", "-" if d < 0 else "", abs(d))
                     if dd != d:
                         c.ops = (("rel", dd),)
                     yield c
@@ -135,7 +139,7 @@ def replay(r, verbose=False):
 
 def run(tier, seed):
     rep = Report(PROP, tier, seed)
-    cfgs = [hexec.DEFAULT_CFG] if tier == "quick" else hexec.QUICK_CFGS
+    cfgs = hexec.QUICK_CFGS if tier == "quick" else hexec.CONFIGS[::2] + [hexec.CONFIGS[-1]]
     rep.rule = ("{jmp, 15 jcc, call, jrcxz, xbegin} x {no keyword, short, long} x every d in [-129,128] plus the +/-2^15, "
                 "+/-2^31, 2^32 neighbourhoods x {decimal, hex}; accepted lines must decode to the same operation with "
                 "displacement d (and rel32 when `long`), lines that can only wrap must be rejected without emitting; "
